@@ -29,6 +29,39 @@ class ParseError(Exception):
     pass
 
 
+_ESCAPES = {"n": "\n", "r": "\r", "t": "\t", "b": "\b", "f": "\f", "v": "\v", "0": "\0", "'": "'", '"': '"', "{": "{", "\\": "\\"}
+
+
+def decode_string(tok: str) -> str:
+    """the value of a Safe-DS string literal token (quotes included in the token)"""
+    body = tok[1:-1]
+    out = []
+    i = 0
+    while i < len(body):
+        c = body[i]
+        if c == "\\":
+            if i + 1 >= len(body):
+                raise ParseError("dangling backslash in string")
+            e = body[i + 1]
+            if e == "u":
+                out.append(chr(int(body[i + 2:i + 6], 16)))
+                i += 6
+                continue
+            if e not in _ESCAPES:
+                raise ParseError(f"unknown escape sequence \\{e}")
+            out.append(_ESCAPES[e])
+            i += 2
+        else:
+            out.append(c)
+            i += 1
+    return "".join(out)
+
+
+def norm_string(tok: str) -> str:
+    """string tokens are compared by value: quote + decoded value + quote"""
+    return '"' + decode_string(tok) + '"'
+
+
 def tokenize(text: str):
     toks = []
     for m in TOKEN_RE.finditer(text):
@@ -131,7 +164,7 @@ class P:
             while not self.accept(">"):
                 neg = self.accept("-")
                 tk, tv = self.next()
-                lits.append(("-" if neg else "") + tv)
+                lits.append(("-" if neg else "") + (norm_string(tv) if tk == "str" else tv))
                 self.accept(",")
             return ("literal", lits)
         if k == "id" and v == "unknown":
@@ -179,7 +212,7 @@ class P:
                         depth += 1
                     if k == "p" and v in ")]}":
                         depth -= 1
-                    toks.append(v)
+                    toks.append(norm_string(v) if k == "str" else v)
                     self.i += 1
                 default = " ".join(toks)
             pyname = next((a[1][0][1:-1] for a in anns if a[0] == "PythonName" and a[1]), name)
@@ -365,7 +398,7 @@ def doc_lines(doc_token: str) -> list[str]:
             s = s[1:]
             if s.startswith(" "):
                 s = s[1:]
-        out.append(s)
+        out.append(s.replace("*\\/", "*/"))     # the markdown escape of a slash after a star reads as the two characters
     while out and out[0] == "":
         out.pop(0)
     while out and out[-1] == "":
